@@ -15,6 +15,10 @@ import vlib
 
 THEOREM_MODULES = ["Yarel.Props.C11", "Yarel.Props.ModelLimits"]
 REQUIRED_THEOREMS = ["intern_id_iff_bytes", "inv_reachable", "find_fuel_enough"]
+# the state the models abstract is all the state there is: the fields of the run-time structures, regenerated on every run, are the ones
+# the models were written against (Props/StateInventory)
+THEOREM_MODULES.append("Yarel.Props.StateInventory")
+REQUIRED_THEOREMS += ['state_of_strings_and_maps']
 LEVEL = "proof"
 ASSUMPTIONS = [
     "model Yarel/Model/Intern.lean transcribes vm.rs string_store + new_gc_obj_string; tie = op-sequence correspondence",
